@@ -9,7 +9,7 @@ U64 = np.uint64
 
 # ---- table generation (normalised float space, as Forest sees it) ---------------------------------------------
 def gen_column(R, n, style=None):
-    style = style or R.choice(["cat", "cat", "cat2", "uniform", "lognormal", "outliers", "const", "tinyconst", "negative", "allnull", "grid", "twoclose"])
+    style = style or R.choice(["cat", "cat", "cat2", "uniform", "lognormal", "outliers", "const", "tinyconst", "negative", "allnull", "grid", "twoclose", "ulpclose"])
     if style == "cat":
         k = R.choice([2, 3, 5, 8]); vals = [float(R.randint(0, k - 1)) for _ in range(n)]
     elif style == "cat2":
@@ -32,6 +32,8 @@ def gen_column(R, n, style=None):
         vals = [None] * n
     elif style == "grid":
         vals = [R.randint(0, 16) / 16.0 for _ in range(n)]
+    elif style == "ulpclose":   # neighbours within 1e-10 relative, next to far-away values
+        a = R.choice([0.5, 0.123456789, 0.9]); vals = [R.choice([a, a * (1 + 1e-10), a * (1 + 3e-10), 0.0, 0.25]) for _ in range(n)]
     else:  # two close values
         vals = [R.choice([0.5, 0.5 + 2.0 ** -20, 0.25]) for _ in range(n)]
     if style not in ("allnull",) and R.random() < 0.35:
